@@ -1769,4 +1769,245 @@ theorem ckks_program_sound {chain : Nat → Level} {top N : Nat} {sk : Array Int
   have h := ckks_program_inv hch henv prog hrun href
   exact ⟨h.lv, h.scale, h.size, h.canon, fun j hj => ⟨h.close j hj, h.mag j hj⟩⟩
 
+/-! ### K3: refusals.  The model's ciphertext operations take ONE level `l` for all operands, so "operands on different levels"
+     cannot even be expressed at the model level; at the program level the level indices are compared (`match_parms_id`). -/
+
+/-- operands in different representations are refused by add / sub -/
+theorem ckks_add_refuses_repr (l : Level) (a b : Ct) (sub : Bool) (h : a.ntt ≠ b.ntt) :
+    ctTranslate l a b sub = .error .refused := ctTranslate_refuse_ntt l a b sub h
+
+/-- multiply refuses coefficient-form operands -/
+theorem ckks_multiply_refuses_coeff (l : Level) (a b : Ct) (h : a.ntt = false ∨ b.ntt = false) :
+    ctMultiplyDyadic l a b = .error .refused := ctMultiplyDyadic_refuse l a b h
+
+/-- multiply_plain refuses a coefficient-form ciphertext -/
+theorem ckks_multiply_plain_refuses_coeff (l : Level) (a : Ct) (p : RnsPoly) (h : a.ntt = false) :
+    ctMultiplyPlainNtt l a p = .error .refused := ctMultiplyPlainNtt_refuse l a p h
+
+/-- rescale / mod-switch refuse on the last level and (CKKS) on coefficient-form input -/
+theorem ckks_rescale_refusals {l : Level} (ct : Ct) :
+    (l.size < 2 → modSwitchScaleNext l ct = .error .refused) ∧
+    (l.scheme = .ckks → ct.ntt = false → modSwitchScaleNext l ct = .error .refused) ∧
+    (l.size < 2 → modSwitchDropNext l ct = .error .refused) ∧
+    (l.scheme = .ckks → ct.ntt = false → modSwitchDropNext l ct = .error .refused) :=
+  ⟨(modSwitchScaleNext_refusals ct).1, (modSwitchScaleNext_refusals ct).2.2.1, (modSwitchDropNext_refusals ct).1,
+    (modSwitchDropNext_refusals ct).2⟩
+
+/-- the model's float scale predicate: refusal exactly when scale ≤ 0 or scale ≥ 2^bits (IEEE comparisons) -/
+theorem ckks_scaleOk_false_iff (scale : Float) (totalBits : Nat) :
+    ckksScaleOk scale totalBits = false ↔
+      (scale ≤ 0.0 ∨ ¬ scale < Float.ofScientific 1 false 0 * (Float.ofNat 2) ^ (Float.ofNat totalBits)) := by
+  unfold ckksScaleOk
+  simp only [Bool.and_eq_false_iff, Bool.not_eq_false', decide_eq_true_eq, decide_eq_false_iff_not]
+
+theorem c03k_scaleOk_iff (s : ℚ) (bits : Nat) : c03k_scaleOk s bits = true ↔ 0 < s ∧ s < 2 ^ bits := by
+  unfold c03k_scaleOk
+  exact decide_eq_true_iff
+
+/-- program level: operands on different levels are refused by add / sub / multiply / multiply_plain -/
+theorem ckks_prog_refuses_levels (chain : Nat → Level) (x y : c03k_Val) (p : c03k_Plain) :
+    (x.lv ≠ y.lv → ∀ sub, c03k_opTranslate chain sub x y = .error .refused) ∧
+    (x.lv ≠ y.lv → c03k_opMul chain x y = .error .refused) ∧
+    (x.lv ≠ p.lv → c03k_opMulPlain chain x p = .error .refused) := by
+  refine ⟨fun h sub => ?_, fun h => ?_, fun h => ?_⟩
+  · unfold c03k_opTranslate; rw [if_pos h]
+  · unfold c03k_opMul; rw [if_pos h]
+  · unfold c03k_opMulPlain; rw [if_pos h]
+
+/-- program level: disagreeing scales are refused by add / sub -/
+theorem ckks_prog_refuses_scale_mismatch (chain : Nat → Level) (sub : Bool) (x y : c03k_Val) (h : x.scale ≠ y.scale) :
+    c03k_opTranslate chain sub x y = .error .refused := by
+  unfold c03k_opTranslate
+  by_cases h1 : x.lv ≠ y.lv
+  · rw [if_pos h1]
+  · rw [if_neg h1, if_pos h]
+
+/-- program level: a product scale out of bounds (not 0 < s·s' < 2^bits(Q)) is refused by multiply / multiply_plain -/
+theorem ckks_prog_refuses_oversize_scale (chain : Nat → Level) (x y : c03k_Val) (p : c03k_Plain) :
+    (c03k_scaleOk (x.scale * y.scale) (bitCount (c03k_Q (chain x.lv))) = false → c03k_opMul chain x y = .error .refused) ∧
+    (c03k_scaleOk (x.scale * p.scale) (bitCount (c03k_Q (chain x.lv))) = false →
+      c03k_opMulPlain chain x p = .error .refused) := by
+  refine ⟨fun h => ?_, fun h => ?_⟩
+  · unfold c03k_opMul
+    split
+    · rfl
+    · split
+      · rfl
+      · rw [if_pos (by rw [h]; rfl)]
+  · unfold c03k_opMulPlain
+    split
+    · rfl
+    · split
+      · rfl
+      · rw [if_pos (by rw [h]; rfl)]
+
+/-- program level: invalid operands (`ctValid` false, empty, or coefficient form) are refused by every operation -/
+theorem ckks_prog_refuses_invalid (chain : Nat → Level) (x : c03k_Val) (h : c03k_valid (chain x.lv) x.ct = false) :
+    c03k_opNeg chain x = .error .refused ∧ (∀ y sub, c03k_opTranslate chain sub x y = .error .refused) ∧
+    (∀ y, c03k_opMul chain x y = .error .refused) ∧ (∀ p, c03k_opMulPlain chain x p = .error .refused) ∧
+    c03k_opRescale chain x = .error .refused ∧ c03k_opDrop chain x = .error .refused := by
+  refine ⟨?_, fun y sub => ?_, fun y => ?_, fun p => ?_, ?_, ?_⟩
+  · unfold c03k_opNeg; rw [if_pos (by rw [h]; rfl)]
+  · unfold c03k_opTranslate
+    split
+    · rfl
+    · split
+      · rfl
+      · rw [if_pos (by rw [h]; rfl)]
+  · unfold c03k_opMul
+    split
+    · rfl
+    · rw [if_pos (by rw [h]; rfl)]
+  · unfold c03k_opMulPlain
+    split
+    · rfl
+    · rw [if_pos (by rw [h]; rfl)]
+  · unfold c03k_opRescale
+    split
+    · rfl
+    · rw [if_pos (by rw [h]; rfl)]
+  · unfold c03k_opDrop
+    split
+    · rfl
+    · rw [if_pos (by rw [h]; rfl)]
+
+/-- program level: rescale / mod-switch below level 0 are refused -/
+theorem ckks_prog_refuses_last_level (chain : Nat → Level) (x : c03k_Val) (h : x.lv = 0) :
+    c03k_opRescale chain x = .error .refused ∧ c03k_opDrop chain x = .error .refused := by
+  constructor
+  · unfold c03k_opRescale; rw [if_pos h]
+  · unfold c03k_opDrop; rw [if_pos h]
+
+/-! ### non-vacuity: a concrete two-level CKKS chain built by the driver's constructor (N = 4, q = {97, 113}), a size-2 input with
+     non-trivial phase, and the program `rescale (mul x x)`: all hypothesis bundles hold, the model evaluation succeeds and the
+     reference evaluation is defined -/
+
+@[instance_reducible] def c03k_decModulus : DecidableEq Modulus := fun a b =>
+  decidable_of_iff (a.value = b.value ∧ a.cr0 = b.cr0 ∧ a.cr1 = b.cr1 ∧ a.cr2 = b.cr2 ∧ a.bits = b.bits)
+    (by cases a; cases b; simp)
+@[instance_reducible] def c03k_decMulOperand : DecidableEq MulOperand := fun a b =>
+  decidable_of_iff (a.operand = b.operand ∧ a.quotient = b.quotient) (by cases a; cases b; simp)
+attribute [local instance] c03k_decModulus c03k_decMulOperand
+@[instance_reducible] def c03k_decNTTTables : DecidableEq NTTTables := fun a b =>
+  decidable_of_iff (a.k = b.k ∧ a.modulus = b.modulus ∧ a.root = b.root ∧ a.rootPowers = b.rootPowers ∧
+      a.invRootPowers = b.invRootPowers ∧ a.invDegree = b.invDegree) (by cases a; cases b; simp)
+@[instance_reducible] def c03k_decRnsCanon (l : Level) (p : RnsPoly) : Decidable (RnsCanon l p) :=
+  inferInstanceAs (Decidable (p.size = l.size ∧ ∀ i, i < l.size → (p.getD i #[]).size = l.n ∧
+    ∀ j, j < l.n → (p.getD i #[]).getD j 0 < (l.q i).value))
+attribute [local instance] c03k_decNTTTables c03k_decRnsCanon
+
+def c03k_exL1 : Level := (Drv.Sch.mkLevel .ckks 4 [97, 113] 0).toOption.getD default
+def c03k_exL0 : Level := (Drv.Sch.mkLevel .ckks 4 [97] 0).toOption.getD default
+
+theorem c03k_exL1_ok : Drv.Sch.mkLevel .ckks 4 [97, 113] 0 = .ok c03k_exL1 := by
+  have h : (Drv.Sch.mkLevel .ckks 4 [97, 113] 0).toOption.isSome = true := by decide +kernel
+  unfold c03k_exL1
+  cases hl : Drv.Sch.mkLevel .ckks 4 [97, 113] 0 with
+  | error e => rw [hl] at h; cases h
+  | ok l => rfl
+
+theorem c03k_exL0_ok : Drv.Sch.mkLevel .ckks 4 [97] 0 = .ok c03k_exL0 := by
+  have h : (Drv.Sch.mkLevel .ckks 4 [97] 0).toOption.isSome = true := by decide +kernel
+  unfold c03k_exL0
+  cases hl : Drv.Sch.mkLevel .ckks 4 [97] 0 with
+  | error e => rw [hl] at h; cases h
+  | ok l => rfl
+
+/-- `c03k_Next` holds between the two levels the driver builds for {97, 113} and {97} -/
+theorem c03k_exNext : c03k_Next c03k_exL1 c03k_exL0 :=
+  ⟨⟨by decide +kernel, by decide +kernel, by decide +kernel⟩, by decide +kernel⟩
+
+def c03k_exChain : Nat → Level := fun c => if c = 0 then c03k_exL0 else c03k_exL1
+
+/-- `c03k_ChainOK` is satisfiable (all parts except the concrete `Next` come from `mkLevel_ok`, i.e. from the model's constructors) -/
+theorem c03k_exChainOK : c03k_ChainOK c03k_exChain 1 4 := by
+  obtain ⟨a1, _, a3, _, a5, a6, _⟩ := mkLevel_ok c03k_exL1_ok
+  obtain ⟨b1, _, b3, _, b5, b6, _⟩ := mkLevel_ok c03k_exL0_ok
+  have h01 : ∀ c, c ≤ 1 → c = 0 ∨ c = 1 := fun c hc => by omega
+  refine ⟨fun c hc => ?_, fun c hc => ?_, fun c hc => ?_, fun c hc => ?_, fun c hc => ?_⟩
+  · rcases h01 c hc with rfl | rfl
+    · exact b1
+    · exact a1
+  · rcases h01 c hc with rfl | rfl
+    · exact b3
+    · exact a3
+  · rcases h01 c hc with rfl | rfl
+    · exact b5
+    · exact a5
+  · rcases h01 c hc with rfl | rfl
+    · exact b6
+    · exact a6
+  · have : c = 0 := by omega
+    subst this
+    exact c03k_exNext
+
+def c03k_exSk : Array Int := #[1, 0, -1, 1]
+
+/-- coefficient forms c0 = 20 − 3X + 7X², c1 = 1, transformed by the model's `rnsNtt`: phase = c0 + c1·s = 21 − 3X + 6X² + X³ -/
+def c03k_exCt : Ct :=
+  ⟨#[rnsNtt c03k_exL1 #[#[20, 94, 7, 0], #[20, 110, 7, 0]], rnsNtt c03k_exL1 #[#[1, 0, 0, 0], #[1, 0, 0, 0]]], true, 1⟩
+
+def c03k_exVal : c03k_Val := ⟨1, c03k_exCt, 8⟩
+
+def c03k_exRef : Nat → c03k_Ref := fun _ =>
+  ⟨1, fun j => ((c03k_phase c03k_exL1 c03k_exSk c03k_exCt j : Int) : ℚ), 21, 0, 8, 2⟩
+
+def c03k_exProg : c03k_Prog := .rescale (.mul (.input 0) (.input 0))
+
+theorem c03k_exPhase : ∀ j, j < 4 → (c03k_phase c03k_exL1 c03k_exSk c03k_exCt j).natAbs ≤ 21 := by decide +kernel
+
+theorem c03k_exPhase0 : c03k_phase c03k_exL1 c03k_exSk c03k_exCt 0 = 21 ∧ c03k_phase c03k_exL1 c03k_exSk c03k_exCt 3 = 1 := by
+  decide +kernel
+
+theorem c03k_exCanon : c03k_Canon c03k_exL1 c03k_exCt :=
+  ⟨rfl, by decide, by decide +kernel⟩
+
+theorem c03k_exInv : c03k_Inv c03k_exChain 1 4 c03k_exSk c03k_exVal (c03k_exRef 0) := by
+  refine ⟨rfl, by decide, rfl, rfl, c03k_exCanon, fun j hj => ?_, fun j hj => ?_, by norm_num [c03k_exRef], by norm_num [c03k_exRef],
+    by decide +kernel⟩
+  · show |((c03k_phase c03k_exL1 c03k_exSk c03k_exCt j : Int) : ℚ) - ((c03k_phase c03k_exL1 c03k_exSk c03k_exCt j : Int) : ℚ)| ≤ 0
+    rw [sub_self, abs_zero]
+  · show |((c03k_phase c03k_exL1 c03k_exSk c03k_exCt j : Int) : ℚ)| ≤ 21
+    have := c03k_exPhase j hj
+    rw [← Int.cast_abs, ← Nat.cast_natAbs]
+    exact_mod_cast this
+
+/-- `c03k_EnvOK` is satisfiable -/
+theorem c03k_exEnv : c03k_EnvOK c03k_exChain 1 4 c03k_exSk #[c03k_exVal] c03k_exRef #[] (fun _ => ⟨fun _ => 0, 0⟩) := by
+  refine ⟨fun i v h => ?_, fun i q h => ?_, fun i q h => ?_, fun i j _ => by simp, fun i => le_refl _⟩
+  · have hi : i = 0 := by
+      by_contra hne
+      have : (#[c03k_exVal] : Array c03k_Val)[i]? = none := by
+        apply Array.getElem?_eq_none; simp; omega
+      rw [this] at h; cases h
+    subst hi
+    have : v = c03k_exVal := by simpa using h.symm
+    subst this
+    exact c03k_exInv
+  · simp at h
+  · simp at h
+
+theorem c03k_exRun_ok : (c03k_run c03k_exChain #[c03k_exVal] #[] c03k_exProg).toOption.isSome = true := by decide +kernel
+
+theorem c03k_exRef_ok :
+    (c03k_ref c03k_exChain 4 (c03k_skL1 4 c03k_exSk) c03k_exRef #[] (fun _ => ⟨fun _ => 0, 0⟩) c03k_exProg).isSome = true := by
+  decide +kernel
+
+/-- the main theorem applies to a concrete run: level 0, scale 8·8/113, size 3, and every phase coefficient within the bound -/
+theorem c03k_program_nonvacuous :
+    ∃ v r, c03k_run c03k_exChain #[c03k_exVal] #[] c03k_exProg = .ok v ∧
+      c03k_ref c03k_exChain 4 (c03k_skL1 4 c03k_exSk) c03k_exRef #[] (fun _ => ⟨fun _ => 0, 0⟩) c03k_exProg = some r ∧
+      v.lv = r.lv ∧ v.scale = r.scale ∧ v.ct.polys.size = r.size ∧
+      ∀ j, j < 4 → |((c03k_phase (c03k_exChain v.lv) c03k_exSk v.ct j : Int) : ℚ) - r.val j| ≤ r.err ∧ |r.val j| ≤ r.mag := by
+  have h1 := c03k_exRun_ok
+  have h2 := c03k_exRef_ok
+  cases hv : c03k_run c03k_exChain #[c03k_exVal] #[] c03k_exProg with
+  | error e => rw [hv] at h1; cases h1
+  | ok v =>
+    cases hr : c03k_ref c03k_exChain 4 (c03k_skL1 4 c03k_exSk) c03k_exRef #[] (fun _ => ⟨fun _ => 0, 0⟩) c03k_exProg with
+    | none => rw [hr] at h2; cases h2
+    | some r =>
+      obtain ⟨a, b, c, _, d⟩ := ckks_program_sound c03k_exChainOK c03k_exEnv c03k_exProg hv hr
+      exact ⟨v, r, rfl, rfl, a, b, c, d⟩
+
 end HC
